@@ -12,6 +12,9 @@ use std::sync::Mutex;
 use std::time::{Duration, Instant};
 
 pub const NCOUNT: usize = 64;
+/// crash-context marker: the child is minimising an ordinary violation of the run in the record
+pub const MINIMISING: u64 = 99;
+static MINIMISING_RUN: AtomicU64 = AtomicU64::new(u64::MAX);
 
 static SMALL: std::sync::atomic::AtomicBool = std::sync::atomic::AtomicBool::new(false);
 /// `--small`: generators keep workloads tiny (used by the Miri tier, ~1000x slower than native)
@@ -261,6 +264,10 @@ pub fn minimise<S: Scenario>(
             }
             if !seen.insert(trace_digest(&c)) {
                 continue;
+            }
+            let mr = MINIMISING_RUN.load(Ordering::SeqCst);
+            if mr != u64::MAX {
+                crate::supervisor::set_run(mr); // restarts the watchdog's clock for this candidate
             }
             let o = exec_one::<S>(&c, false);
             steps += 1;
@@ -548,7 +555,16 @@ pub fn run<S: Scenario>(cfg: &RunCfg) -> i32 {
             "violation at run {run}: clause={} detail={}; minimising…",
             v.clause, v.detail
         );
+        // The un-minimised trace is on disk before minimisation starts: shrink candidates execute in
+        // this process and may crash or hang where the original did not. The parent recognises
+        // the marker (context 99) and reports this file if the child dies here.
+        let _ = write_replay::<S>(cfg, *run, &original, &original, v, 0);
+        crate::supervisor::set_ctx([MINIMISING, 0, 0, 0]);
+        crate::supervisor::set_run(*run);
+        MINIMISING_RUN.store(*run, Ordering::SeqCst);
         let (min, mv, steps) = minimise::<S>(original.clone(), v, cfg.minimise_budget);
+        MINIMISING_RUN.store(u64::MAX, Ordering::SeqCst);
+        crate::supervisor::set_run(u64::MAX);
         let path = write_replay::<S>(cfg, *run, &original, &min, &mv, steps);
         // confirm from the written file before reporting
         let doc: Value =
@@ -653,6 +669,7 @@ pub fn run<S: Scenario>(cfg: &RunCfg) -> i32 {
         "real_components": S::real_components(),
         "simulated_components": S::simulated_components(),
         "known_findings_hit": known_hits.len(),
+        "accumulator_state_hook_compiled_in": crate::acc::HOOK,
         "distinct_nontrivial_is_capped": sig_capped,
     });
     if let Some(p) = &cfg.extra_coverage {
@@ -679,9 +696,14 @@ pub fn run<S: Scenario>(cfg: &RunCfg) -> i32 {
         if let Some(dir) = std::path::Path::new(p).parent() {
             let _ = std::fs::create_dir_all(dir);
         }
-        let tmp = format!("{p}.tmp");
-        std::fs::write(&tmp, serde_json::to_string_pretty(&ev).unwrap()).unwrap();
-        std::fs::rename(&tmp, p).unwrap();
+        // a verdict exists by now: evidence I/O must never change the exit code
+        let tmp = format!("{p}.{}.tmp", std::process::id());
+        let ok = std::fs::write(&tmp, serde_json::to_string_pretty(&ev).unwrap_or_default()).is_ok()
+            && std::fs::rename(&tmp, p).is_ok();
+        if !ok {
+            eprintln!("warning: could not write the evidence file {p}");
+            let _ = std::fs::remove_file(&tmp);
+        }
     }
     println!(
         "summary property={} runs={} evaluations={} distinct_nontrivial={} events={} bytes={} log_digest={:016x} wall_s={:.2} violations={}",
